@@ -61,7 +61,12 @@ def _chunk(args):
     pr = PROFILES[prop]
     agg = {"status": Counter(), "counts": Counter(), "events": 0, "simtime": 0.0, "digests": [], "sigs": set(),
            "viol": [], "harness": [], "feat": Counter(), "samples": [], "n": 0, "states": set()}
+    hangs = 0
     for i in range(lo, hi):
+        if hangs >= 3:
+            # every hang costs seconds of CPU: three in one chunk are reported at once instead of stalling the batch
+            agg["status"]["skipped_after_hangs"] += hi - i
+            break
         rs, S = spec_for(prop, tier, seed, i)
         if S is None:
             agg["status"]["skipped"] += 1
@@ -69,6 +74,8 @@ def _chunk(args):
         res = pr.run(S)
         agg["n"] += 1
         st = res["status"]
+        if st == "hang":
+            hangs += 1
         if st in ("violation", "crash", "hang") and res.get("prop") != prop:
             # another property's matter (e.g. an engine crash while checking C05): counted, not reported here
             agg["status"]["other:" + str(res.get("prop"))] += 1
